@@ -450,5 +450,6 @@ pub fn run(cfg: &Cfg, rep: &mut Report) {
 
   // thread part: outer, inner and unsubscribing threads on merge_all_threads (baton scheduler)
   let n = cfg.n(6_000, 600_000);
+  super::thr::systematic_families(cfg, rep, 0xC05A, &[9, 9, 9], &|_, _| {}, &|o, s| super::thr::flatten_oracle(o, s));
   super::thr::campaign(cfg, rep, "thr", n, 0xC05F, &mut |r: &mut Rng| super::thr::random_scen(r, 9), &|o, s| super::thr::flatten_oracle(o, s));
 }
